@@ -63,7 +63,13 @@ static void _varintExternalBigEndianCopyToEncodingLittleEndian(
         break;
 
     case VARINT_WIDTH_64B:
-        *(uint64_t *)dst = __builtin_bswap64(*(uint64_t *)src);
+        /* dst/src are byte pointers with no alignment guarantee */
+        {
+            uint64_t tmp_;
+            memcpy(&tmp_, src, sizeof(tmp_));
+            tmp_ = __builtin_bswap64(tmp_);
+            memcpy(dst, &tmp_, sizeof(tmp_));
+        }
         break;
 
     default:
